@@ -30,3 +30,18 @@ def plasmids():
             out.append((name, key, str(item.entity.record.seq), type(item.entity)))
     _cache["pl"] = out
     return out
+
+
+_regs = {}
+
+
+def registry(name):
+    if name not in _regs:
+        for mod, n, cls in registry_classes():
+            if n == name:
+                _regs[name] = cls()
+    return _regs[name]
+
+
+def item(reg, key):
+    return registry(reg)[key]
